@@ -71,6 +71,16 @@ def gen_cases(rng, tier):
         n += 1
         for i in range(len(data) + 1):
             cases.append(hx(data[:i]))
+    # raw TCP option areas (the harness also runs TcpOptionsIterator::from_slice / TcpOptions::try_from_slice on
+    # the whole input): every kind x every length byte 0..44, the area ending 0, 1 or 4 bytes early
+    for kind in (2, 3, 4, 5, 8):
+        for ln in range(0, 45):
+            for short in (0, 1, 4):
+                for nops in (0, 2):
+                    body = rng.bytes(max(0, ln - 2 - short))
+                    cases.append(hx(b"\x01" * nops + bytes([kind, ln]) + body))
+    for _ in range(300 if not big else 20000):
+        cases.append(hx(pktgen.gen_tcp_opts(rng, rng.range(1, 44))))
     # short strings exhaustively biased: every single byte, interesting pairs
     for b in range(256):
         cases.append("%02x" % b)
